@@ -192,6 +192,16 @@ static int runSetterTable(const std::string& tier, const std::string& out, const
             if (after != before) add(std::string("parameter_changed_by_refused_set/") + tn);
         }
     }
+    // the reshape idiom p.set(p.valuesAsX(), newDims): the data argument aliases the parameter's own storage
+    for (int type = 0; type < 3; ++type) for (auto& sh : std::vector<std::vector<size_t>>{{6}, {2, 3}, {3, 2}, {1, 6}, {6, 1}, {1, 2, 3}}) {
+        Param p("X"); if (type == 0) p.set(std::vector<int>() = {1, 2, 3, 4, 5, 6}); else if (type == 1) p.set(std::vector<float>() = {1, 2, 3, 4, 5, 6}); else p.set(std::vector<std::string>() = {"a", "bb", "ccc", "d", "ee", "fff"});
+        PSnap before = snapParam(p); evals++; accepted++;
+        Outcome oc = guarded([&] { if (type == 0) p.set(p.valuesAsInt(), sh); else if (type == 1) p.set(p.valuesAsFloat(), sh); else p.set(p.valuesAsString(), sh); });
+        PSnap after = snapParam(p); const char* tn = type == 0 ? "int" : type == 1 ? "float" : "string"; std::string cs = std::string(tn) + " reshape through own values to " + shapeText(sh);
+        if (tf) { std::string t; dumpParam(t, after); fprintf(tf, "%s -> %s %s\n", cs.c_str(), outcomeName(oc), hashStr(t).hex().c_str()); }
+        auto add = [&](const std::string& sig) { auto it = viol.find(sig); if (it == viol.end()) viol[sig] = {sig, cs, 1}; else it->second.count++; };
+        if (oc != OK) add(std::string("reshape_refused/") + tn); else if (after.ints != before.ints || after.floats != before.floats || after.strs != before.strs) add(std::string("reshape_through_own_values_loses_values/") + tn);
+    }
     auto jstr = [](const std::string& s) { std::string o = "\""; for (unsigned char ch : s) { if (ch == '"' || ch == '\\') { o += '\\'; o += (char)ch; } else o += (char)ch; } return o + "\""; };
     if (tf) fclose(tf);
     FILE* f = out.empty() ? stdout : fopen(out.c_str(), "w");
